@@ -68,9 +68,9 @@ def check(ctx):
     # mechanisms this property rests on (see shared.py): a change there is reported here as well
     from . import shared as _sh
 
-    ctx.run(_sh.gaf_reader)
-    ctx.run(_sh.tag_parser)
-    ctx.run(_sh.cli_layer, "gaftools.cli.phase")
+    ctx.run_shared(_sh.gaf_reader)
+    ctx.run_shared(_sh.tag_parser)
+    ctx.run_shared(_sh.cli_layer, "gaftools.cli.phase")
 
 
 def check_template(ctx, f, rec, st, p, parts, schema, extras, key_colon, table):
